@@ -180,6 +180,16 @@ def witness(oc):
         oc.evaluations += 1
         if rec != idx:
             oc.known_hit["irregular_spacing"] = "file body %r vs index body %r" % (rec[0]["body"], idx[0]["body"])
+    # an edited note that has no ZID yet: the ZID is written in FRONT of its modify date
+    with Z.tmpdir("c05w_") as d:
+        write_tree(d, {"w.zo": "# w\n\no 240203 foo bar\n"})
+        with freeze_time(dt.datetime(2024, 6, 1, 12)):
+            Z.db_create(d)
+        rec, idx = W.key_notes(W.compile_dir(d, TODAY)), W.key_notes(W.dump_index(d))
+        oc.evaluations += 1
+        if rec != idx and rec[0]["modify"] != idx[0]["modify"]:
+            oc.known_hit["modify_date_without_zid"] = "line %r: modify date in the index %s, in the recompiled file %s" % (
+                W.user_files(d)["w.zo"].split("\n")[2], idx[0]["modify"], rec[0]["modify"])
 
 
 def run(oc, tier, seed):
